@@ -151,7 +151,11 @@ func sizedGraph(s Sized) *model.Graph {
 		if s.NV > 0 {
 			from, to = fmt.Sprintf("v%d", i%s.NV), fmt.Sprintf("v%d", (i*7+1)%s.NV)
 		}
-		g.E = append(g.E, &model.Element{ID: fmt.Sprintf("e%d", i), Edge: true, Label: []string{"x", "y", "z"}[i%3], From: from, To: to,
+		id := fmt.Sprintf("e%d", i)
+		if i == 1 && s.NV > 1 {
+			id = "v1" // vertex and edge ids are separate id spaces: this edge shares the id of its source
+		}
+		g.E = append(g.E, &model.Element{ID: id, Edge: true, Label: []string{"x", "y", "z"}[i%3], From: from, To: to,
 			Data: map[string]interface{}{"k": float64(i % 2)}})
 	}
 	return g
@@ -768,6 +772,9 @@ func (m *machine) resumeOp(op Op) {
 			if un[mk] {
 				unloaded = append(unloaded, mk)
 			}
+		}
+		if len(unloaded) >= 2 {
+			pbt.Class(m.t, "resume:reads>=2-marks-stored-by-id-only")
 		}
 	}
 	m.read()
